@@ -1,8 +1,25 @@
 """C15 Metadata tables behave as persistent maps and survive persist cycles
 (util/hamt: Hamt, Chain, WriteChain, ReadChain; db19/meta: Meta.Put/Drop/RenameTable/Write)"""
-# Mutation testing (scratch worktree with the fix: commits applied, VERIF_REPO=<dir> bin/vcheck C15 quick;
-# every mutant compiles and keeps `go test ./util/hamt/ ./db19/meta/` green):
-#   see the table at the end of this file (MUTANTS), maintained by hand.
+# Mutation testing (scratch worktrees at the three fix: commits, VERIF_REPO=<dir> bin/vcheck C15 quick, seed 1;
+# every mutant listed compiles and keeps `go test ./util/hamt/ ./db19/meta/...` green):
+#  caught (VIOLATION):
+#   M3  hamt.Write: lastMod filter `>=` -> `>` (both loops)              rejected: Write read-back misses entries
+#   M4  WriteChain: oldest = Ages[no-1] instead of Ages[no-merge]        rejected: Write, ReadChain panics (checksum)
+#   M5  Hamt.read: older chunks overwrite newer items                    rejected: Write, ReadChain panics (checksum)
+#   M12 hamt.Write: tombstones included in the chunk checksum            rejected: Write, ReadChain panics (checksum)
+#   M20 pullUp without path copy (shared child mutated)                  rejected: Obs of a frozen version
+#   M21 without: path copy only at the root                              rejected: Obs of a frozen version
+#   M22 Mutable does not start a new generation                          rejected: Obs of a frozen version
+#   M7  meta.Drop: physical delete whenever `created` is set             rejected: DbObs/ReadState/open after persist
+#   M8  meta.Put: lastMod not set (views)                                rejected: ReadState (checksum) / view lost
+#   M17 meta.RenameTable: no tombstone for the old name                  rejected: DbObs (old table still listed)
+#   M9  meta.Apply: lastMod not set after merge/persist of an info       rejected: ReadState/open (checksum), needed the
+#                                                                         "transaction straddles a persist" step
+#  not a violation by design:
+#   M6  WriteChain: prevOff = newest chunk instead of last kept chunk    read-back still correct -> reported as DRIFT
+#                                                                         (exit 2: model and code differ), no VIOLATION
+#  mutants that the package's own tests already kill (not counted): pullUp dropping a node with two values,
+#   node.dup sharing the vals slice, ReadChain ages off by one, flatten keeping tombstones
 
 import os
 import re
@@ -55,11 +72,18 @@ def model_check(ctx):
 
 def conformance(ctx):
     # 2. conformance: the real hamt / chain / meta code, validated by TraceMetaChain
-    drv = ctx.go_build("metachain")
-    trace = ctx.work + "/metachain.ndjson"
-    nh, ndb = (150, 400) if ctx.thorough() else (24, 70)
-    rc, out, summ = ctx.driver(drv, [trace, nh, ndb], timeout=900)
-    ctx.sample_trace_lines(trace, 8)
+    if ctx.replay:
+        trace, summ = ctx.replay, None          # re-validate a kept replay file
+    else:
+        drv = ctx.go_build("metachain")
+        trace = ctx.work + "/metachain.ndjson"
+        nh, ndb = (150, 400) if ctx.thorough() else (24, 70)
+        rc, out, summ = ctx.driver(drv, [trace, nh, ndb], timeout=1500)
+        # vacuity guard: the driver must really have exercised the code
+        if rc != 0 or summ.get("writes", 0) < 20 * nh or summ.get("dbops", 0) < 8 * ndb \
+                or summ.get("maxchain", 0) < 7 or summ.get("deletes", 0) < 5 * nh:
+            raise ctx_infra("metachain driver did too little (rc=%s): %s\n%s" % (rc, summ, out[-1500:]))
+        ctx.sample_trace_lines(trace, 8)
     res = ctx.tlc_trace("TraceMetaChain.tla", "TraceMetaChain.cfg", trace, timeout=1200)
     tlcout = res.get("out", "")
     if not res["accepted"]:
@@ -90,7 +114,8 @@ def conformance(ctx):
                         "algorithm the code runs -- update spec/MetaChain.tla): %s"
                         % (line, open(trace).read().splitlines()[line - 1][:400]))
     for k in ("writes", "puts", "deletes", "maxclock", "maxchain", "dbops", "scenarios"):
-        ctx.cov["real_" + k] = summ.get(k, 0)
+        if summ:
+            ctx.cov["real_" + k] = summ.get(k, 0)
     ctx.assumptions += [
         "the driver's item type (7 byte encoding, additive checksum) stands in for meta.Schema / meta.Info at the hamt level; "
         "the meta level runs the real items through a database on a heap stor",
@@ -104,8 +129,3 @@ def conformance(ctx):
 def ctx_infra(msg):
     import vlib
     return vlib.Infra(msg)
-
-
-MUTANTS = """
-(filled in after mutation testing)
-"""
